@@ -193,6 +193,60 @@ def _reflexive(c):
         norm_src(e.left) == norm_src(e.comparators[0]) and _pure(e.left)
 
 
+class _IfSimplify(ast.NodeTransformer):
+    """a conditional expression whose (call-free) test the path decides
+    elsewhere denotes the chosen branch on that path"""
+
+    def __init__(self, facts):
+        self.facts = facts
+        self.changed = False
+
+    def visit_IfExp(self, node):
+        self.generic_visit(node)
+        if _pure(node.test):
+            c, pol = canon(node.test, True)
+            t = self.facts.get(c)
+            if t is not None:
+                self.changed = True
+                return node.body if (t == pol) else node.orelse
+        return node
+
+
+def _simplify_ifexps(ps):
+    def has_ifexp(e):
+        return e is not None and any(isinstance(x, ast.IfExp) for x in ast.walk(e))
+    tr = _IfSimplify(ps.facts)
+    for e in ps.events:
+        if has_ifexp(e.r):
+            e.r = tr.visit(clone(e.r))
+        if has_ifexp(e.val):
+            e.val = tr.visit(clone(e.val))
+    if has_ifexp(ps.ret):
+        ps.ret = tr.visit(clone(ps.ret))
+    if has_ifexp(ps.raised):
+        ps.raised = tr.visit(clone(ps.raised))
+    if any(' if ' in c for c, t, p in ps.order):
+        new_order = []
+        for k, (c, t, p) in enumerate(ps.order):
+            if ' if ' in c and not c.startswith(('ITER(', 'EXCEPT(')):
+                try:
+                    e = ast.parse(c, mode='eval').body
+                except SyntaxError:
+                    new_order.append((c, t, p))
+                    continue
+                if has_ifexp(e):
+                    e2 = tr.visit(e)
+                    c2, pol = canon(e2, True)
+                    t2 = t if pol else (not t)
+                    if c2 != c:
+                        ps.facts.pop(c, None)
+                        ps.facts[c2] = t2
+                    new_order.append((c2, t2, p))
+                    continue
+            new_order.append((c, t, p))
+        ps.order = new_order
+
+
 def _mark_stale(ps, stale, since):
     """a store/del through X[...] or X.attr since the last test may have
     changed what earlier call-free conditions about X evaluate to"""
@@ -372,6 +426,7 @@ def summarise(func, limit=6000, to_raise=True, lists=False):
             ps.kind = 'raise'
         ps.env = env
         if not ps.infeasible:
+            _simplify_ifexps(ps)
             out.append(ps)
     return out
 
